@@ -2526,7 +2526,7 @@ class Exec:
         if m:
             v = st.get(args[0].cell, args[0].path) if isinstance(args[0], Ref) else args[0]
             return R(z3.BoolVal((v.variant == 'Some') == (m.group(1) == 'some')))
-        if re.match(r'<F as FnMut<', c) or re.match(r'<F as FnOnce<', c):
+        if re.match(r'<[A-Z]\w* as Fn(Mut|Once)?<', c) and not s.find_fn(c):      # a call of a type parameter's closure (F, P, G, ...): caller code
             a = args[1] if len(args) > 1 else {}
             return s.extern_call(st, list(a.values()) if isinstance(a, dict) else [a], where, 'f')
         if re.search(r'Argument::<.*>::new_(display|debug)', c):
@@ -3025,6 +3025,10 @@ class Exec:
                     if kind == 'ret':
                         if ret is None:
                             continue
+                        if isinstance(val, Elem) and val.arr is s.V and fn.ltypes.get(lhs.strip()) == 'bool':
+                            # caller code (a predicate) returned a bool: any truth value, not an owned element
+                            s2.calls += 1
+                            val = z3.Bool('pred_%d_%d' % (s2.calls, len(s2.pc)))
                         s.store(s2, f2, s.parse_place(lhs), val)
                         work.append((s2, f2, ret))
                     elif unw == 'continue':
